@@ -78,6 +78,18 @@ def get_module(module):
     return module
 
 
+def get_module_funcs(module):
+    """Functions defined in ``module``, by name in the order of ``dir``"""
+    funcs = {}
+    for name in dir(module):
+        func = getattr(module, name)
+        if isinstance(func, types.FunctionType):
+            # Choose only the functions defined in the module.
+            if func.__module__ == module.__name__:
+                funcs[name] = func
+    return funcs
+
+
 def get_param_func(param_names):
 
     if param_names:
